@@ -22,7 +22,7 @@ from ..engine import (
     stmt_of,
     walk_no_nested,
 )
-from ..normal import nfunc
+from ..normal import module_constants, nfunc, normalize
 from ..report import Report
 
 GRAPH = "semantiva/pipeline/graph_builder.py"
@@ -38,6 +38,17 @@ AMBIENT_PREFIXES = ("time.", "random.", "secrets.", "datetime.", "os.environ", "
 AMBIENT_CALLS = {"uuid.uuid1", "uuid.uuid4", "uuid.uuid7", "uuid1", "uuid4", "id", "hash", "getpid", "getcwd", "time", "now", "utcnow", "today", "urandom", "random", "randint", "token_hex", "perf_counter", "monotonic"}
 # hashing helpers and who may use which id prefix
 PREFIX_OWNERS = {"plid-": (GRAPH, "compute_pipeline_id"), "plsemid-": (SEM, "compute_pipeline_semantic_id"), "plcid-": (SEM, "compute_pipeline_config_id")}
+
+
+PER_RUN_PARAMS = {"payload", "transport", "logger", "trace", "run_metadata"}  # parameters of execute() that are not the configuration
+
+
+def _ambient_call(c: ast.Call) -> bool:
+    d = call_name(c) or ""
+    tail = d.split(".")[-1]
+    if not d:
+        return call_attr(c) in ("getcwd", "getpid", "urandom", "uuid4", "uuid1", "perf_counter", "monotonic", "time_ns", "gethostname", "getenv")
+    return d.startswith(AMBIENT_PREFIXES) or d in AMBIENT_CALLS or (tail in AMBIENT_CALLS and d.split(".")[0] in ("uuid", "time", "datetime", "random", "os", "secrets"))
 
 
 def identity_slice(repo: Repo) -> List[Tuple[str, str, ast.AST]]:
@@ -479,12 +490,7 @@ def run(repo: Repo, R: Report) -> None:
     for rel, qn, f in sl:
         bad = None
         for c in calls_in(f):
-            d = call_name(c) or ""
-            tail = d.split(".")[-1]
-            if not d and call_attr(c) in ("getcwd", "getpid", "urandom", "uuid4", "uuid1", "perf_counter", "monotonic", "time_ns", "gethostname", "getenv"):
-                bad = c
-                break
-            if d.startswith(AMBIENT_PREFIXES) or d in AMBIENT_CALLS or (tail in AMBIENT_CALLS and d.split(".")[0] in ("uuid", "time", "datetime", "random", "os", "secrets")):
+            if _ambient_call(c):
                 bad = c
                 break
         for n in walk_no_nested(f):
@@ -493,10 +499,23 @@ def run(repo: Repo, R: Report) -> None:
         R.check(bad is None, r_amb, rel, qn, f"{qn}: no ambient source", f"`{norm(bad)[:60]}` makes the identity depend on time / process / host / hash seed" if bad is not None else "", f.lineno)
     # execute: ids are computed from canonical + processor metadata only; run_id (uuid4) feeds pipeline_start/SER identity only
     ex = repo.func(ORCH, "SemantivaOrchestrator.execute")
-    for c in calls_in(ex):
+    ex_flow = flow_of(repo, ORCH, "SemantivaOrchestrator.execute")
+    ex_nf = ex_flow.fn
+    # the identities of pipeline_start: id computations that can be followed by the on_pipeline_start call (the per-node
+    # ids of the SER records, computed from the instantiated nodes afterwards, are not configuration identities)
+    starts = [u for c in calls_in(ex_nf) if call_attr(c) == "on_pipeline_start" for u in ex_flow.g.nodes_for(stmt_of(c))]
+    if not starts:
+        raise AnalysisError("execute(): no on_pipeline_start call found (anchor of the pipeline_start identities)")
+    for c in calls_in(ex_nf):
         if call_attr(c) in ("compute_pipeline_id", "compute_pipeline_semantic_id", "compute_pipeline_config_id", "compute_node_semantic_id"):
-            names = {x.id for a in c.args for x in ast.walk(a) if isinstance(x, ast.Name)}
-            tainted = {"run_id", "run_token", "payload", "data", "context", "trace", "logger", "transport"} & names
+            if not any(set(starts) & set(ex_flow.g.reach([u])) for u in ex_flow.g.nodes_for(stmt_of(c))):
+                continue
+            # transitive data dependence of the hashed arguments: per-run parameters and ambient calls must not feed them
+            tainted: Set[str] = set()
+            for a in list(c.args) + [kw.value for kw in c.keywords]:
+                names, fed_by = ex_flow.feeds(a)
+                tainted |= names & PER_RUN_PARAMS
+                tainted |= {norm(k)[:40] for k in fed_by if _ambient_call(k)}
             R.check(not tainted, r_amb, ORCH, "SemantivaOrchestrator.execute", norm(c)[:70], f"a volatile / per-run value ({sorted(tainted)}) is hashed into an identity", c.lineno)
 
     # ------------------------------------------------------------------ D3a no process-lifetime state
@@ -506,14 +525,17 @@ def run(repo: Repo, R: Report) -> None:
     r_ord = R.rule("C04-D2-key-order-insensitive", "every value that reaches a hash comes from json.dumps(sort_keys=True) or from a normaliser that rebuilds dicts over sorted keys; no list inside a hashed structure inherits mapping or set order", 10)
     n_sites = 0
     for rel, qn, f in sl + [(ORCH, "SemantivaOrchestrator.execute", ex)]:
+        mod_f = repo.module(rel)
         for c in calls_in(f):
-            d = call_name(c) or ""
-            if d in ("hashlib.sha256", "uuid.uuid5") or (d.endswith(".update") and "digest" in d):
+            d = _qualified(mod_f, c)
+            if d in ("hashlib.sha256", "uuid.uuid5") or _is_hasher_update(f, c, mod_f):
                 n_sites += 1
                 arg = c.args[-1] if c.args else None
-                dumps = _dumps_feeding(f, arg)
+                dumps = _dumps_feeding(f, arg, mod=mod_f)
                 for jd in dumps:
                     sk = kwarg(jd, "sort_keys")
+                    if isinstance(sk, ast.Name) and sk.id not in _local_names(f):  # a module-level literal constant
+                        sk = module_constants(repo.module(rel)).get(sk.id, sk)
                     sorted_ok = isinstance(sk, ast.Constant) and sk.value is True
                     why = "json.dumps without sort_keys on an unnormalised value"
                     if not sorted_ok:
@@ -524,18 +546,31 @@ def run(repo: Repo, R: Report) -> None:
     if n_sites < 6:
         raise AnalysisError(f"only {n_sites} hashing sites found in the identity slice (10 confirmed by reading)")
     for rel, qn in ((IDENT, "RunSpaceIdentityService._rscf_v1"), (BUILDER, "_normalize_run_space")):
-        f = repo.func(rel, qn)
-        dcs = [n for n in ast.walk(f) if isinstance(n, ast.DictComp)]
+        f0 = repo.func(rel, qn)
+        # normal form of the function and of the functions nested in it (accumulate-loops as comprehensions, no inlining:
+        # the normaliser is recursive)
+        f = normalize(repo, repo.module(rel), f0, inline=False, loops=True)
+        for sub in [n for n in ast.walk(f) if isinstance(n, FuncNode) and n is not f]:
+            _loops_in_place(repo, rel, sub)
+        # the normaliser: the function itself, a function nested in it, or a function / method of the module it calls
+        cands = [n for n in ast.walk(f) if isinstance(n, FuncNode)]
+        for c in calls_in(f0):
+            for tm, tf in repo.resolve_call(repo.module(rel), c):
+                if tm.rel == rel and tf is not f0 and isinstance(tf, FuncNode):
+                    cands.append(normalize(repo, tm, tf, inline=False, loops=True))
+        dcs = [n for cand in cands for n in ast.walk(cand) if isinstance(n, ast.DictComp)]
         ok = bool(dcs) and all(isinstance(dc.generators[0].iter, ast.Call) and call_attr(dc.generators[0].iter) == "sorted" for dc in dcs)
-        nf = next((n for n in ast.walk(f) if isinstance(n, FuncNode) and order_normaliser_gap(n) is None), None)
-        R.check(nf is not None, r_ord, rel, qn, "normaliser descends through mappings and lists", "the RSCF normaliser does not reach every mapping (" + "; ".join(sorted({order_normaliser_gap(n) or "" for n in ast.walk(f) if isinstance(n, FuncNode)})) + "): key order of a mapping nested in a list changes the run-space spec id", f.lineno)
-        R.check(ok, r_ord, rel, qn, "dicts rebuilt over sorted(keys)", "the RSCF normaliser keeps mapping order", f.lineno)
+        nf = next((n for n in cands if order_normaliser_gap(n) is None), None)
+        R.check(nf is not None, r_ord, rel, qn, "normaliser descends through mappings and lists", "the RSCF normaliser does not reach every mapping (" + "; ".join(sorted({order_normaliser_gap(n) or "" for n in cands})) + "): key order of a mapping nested in a list changes the run-space spec id", f0.lineno)
+        R.check(ok, r_ord, rel, qn, "dicts rebuilt over sorted(keys)", "the RSCF normaliser keeps mapping order", f0.lineno)
     # list order provenance in the sweep metadata
     create = repo.func(SWEEP, "ParametricSweepFactory.create")
     pm = next(n for n in ast.walk(create) if isinstance(n, FuncNode) and n.name == "_preprocessor_metadata")
     for n in ast.walk(pm):
         if isinstance(n, ast.Dict):
             for k, v in zip(n.keys, n.values):
+                if isinstance(v, ast.Name) and len(assigned_value(pm, v.id)) == 1:  # a named sub-expression
+                    v = assigned_value(pm, v.id)[0]
                 if isinstance(k, ast.Constant) and isinstance(v, ast.Call) and call_attr(v) in ("list", "tuple", "sorted") and v.args:
                     src_attr = None
                     for x in ast.walk(v.args[0]):
@@ -544,14 +579,23 @@ def run(repo: Repo, R: Report) -> None:
                     if call_attr(v) == "sorted":
                         R.ok(r_ord, SWEEP, qualname_of(pm), f"{k.value!r}: sorted(...)", "", v.lineno)
                         continue
-                    prov = _class_attr_order(create, src_attr) if src_attr else "unknown"
+                    prov = _class_attr_order(normalize(repo, repo.module(SWEEP), create, inline=False, loops=True), src_attr) if src_attr else "unknown"
                     R.check(prov in ("fixed", "sorted"), r_ord, SWEEP, qualname_of(pm), f"{k.value!r}: list(cls.{src_attr}) [{prov} order]",
                             f"a list hashed into the node semantic id inherits {prov} order: reordering the keys of the sweep's mapping changes config_id", v.lineno)
     cpc = repo.func(SEM, "compute_pipeline_config_id")
     R.check(_param_sorted_before_use(repo, SEM, "compute_pipeline_config_id"), r_ord, SEM, "compute_pipeline_config_id", "pairs sorted before hashing", "config id depends on the order pairs were collected", cpc.lineno)
     crk = repo.func(BUILDER, "_collect_required_context_keys")
-    rets = [n for n in walk_no_nested(crk) if isinstance(n, ast.Return) and n.value is not None and not (isinstance(n.value, ast.List) and not n.value.elts)]
-    R.check(bool(rets) and all(isinstance(r.value, ast.Call) and call_attr(r.value) == "sorted" for r in rets), r_ord, BUILDER, "_collect_required_context_keys", "required context keys returned sorted", "the required-key list of the inspection payload follows set iteration order (hash-seed dependent)", crk.lineno)
+    crk_flow = flow_of(repo, BUILDER, "_collect_required_context_keys")
+    crk_nf = crk_flow.fn
+    # every value the function can return is sorted(...) or an empty list (followed through locals / conditional expressions)
+    returned: Set[Leaf] = set()
+    for n in walk_no_nested(crk_nf):
+        if isinstance(n, ast.Return) and n.value is not None:
+            returned |= crk_flow.origins(n.value)
+    is_sorted = lambda l: isinstance(l[0], ast.Call) and not l[1] and isinstance(l[0].func, ast.Name) and l[0].func.id == "sorted"  # noqa: E731
+    is_empty = lambda l: not l[1] and ((isinstance(l[0], (ast.List, ast.Tuple)) and not l[0].elts) or (isinstance(l[0], ast.Call) and call_attr(l[0]) in ("list", "tuple") and not l[0].args))  # noqa: E731
+    unsorted = sorted(_show_leaf(l) for l in returned if not (is_sorted(l) or is_empty(l)))
+    R.check(any(is_sorted(l) for l in returned) and not unsorted, r_ord, BUILDER, "_collect_required_context_keys", "required context keys returned sorted", f"the required-key list of the inspection payload follows set iteration order (hash-seed dependent): it can be `{unsorted[0] if unsorted else 'nothing sorted'}`", crk.lineno)
     # set iteration anywhere in the slice
     for rel, qn, f in sl:
         for n in walk_no_nested(f):
@@ -562,26 +606,33 @@ def run(repo: Repo, R: Report) -> None:
     # ------------------------------------------------------------------ D4 same functions, same fields on both paths
     r_same = R.rule("C04-D4-inspect-equals-runtime", "inspection and run time compute the three pipeline-level ids with the same functions of semantiva.metadata.semantic_id / graph_builder, from the canonical nodes enriched with the same metadata and from (node_uuid, node semantic id) pairs built alike; each id prefix is produced in exactly one function", 9)
     bip = repo.func(BUILDER, "build_inspection_payload")
-    for rel, qn, f in ((BUILDER, "build_inspection_payload", bip), (ORCH, "SemantivaOrchestrator.execute", ex)):
+    for rel, qn, f0 in ((BUILDER, "build_inspection_payload", bip), (ORCH, "SemantivaOrchestrator.execute", ex)):
         mod = repo.module(rel)
+        f = nfunc(repo, rel, qn)  # private helpers inlined: the id functions may be called from an extracted helper
         for fname, home in (("compute_pipeline_semantic_id", SEM), ("compute_pipeline_config_id", SEM), ("compute_node_semantic_id", SEM)):
             cs = [c for c in calls_in(f) if call_attr(c) == fname]
             ok = bool(cs)
             for c in cs:
                 t = repo.resolve_call(mod, c)
                 ok = ok and len(t) == 1 and t[0][0].rel == home
-            R.check(ok, r_same, rel, qn, f"{fname} -> {home}", f"{qn} does not compute this id with {home}:{fname} (a private re-implementation or a missing call)", f.lineno)
+            R.check(ok, r_same, rel, qn, f"{fname} -> {home}", f"{qn} does not compute this id with {home}:{fname} (a private re-implementation or a missing call)", f0.lineno)
         ok, why = _config_id_pairs(repo, rel, qn)
-        R.check(ok, r_same, rel, qn, "semantic_pairs.append((node_uuid, node_semantic_id))", f"the pairs hashed into config_id are not (node uuid, node semantic id): {why}", f.lineno)
+        R.check(ok, r_same, rel, qn, "semantic_pairs.append((node_uuid, node_semantic_id))", f"the pairs hashed into config_id are not (node uuid, node semantic id): {why}", f0.lineno)
     same_node_fields(repo, R)
     for prefix, (home_rel, home_fn) in PREFIX_OWNERS.items():
         owners = []
         for mod, qn, f in repo.all_functions():
             if mod.rel.startswith("semantiva/examples/"):
                 continue
+            # the literal itself, or a module-level constant holding it (hoisted), also when imported from its module
+            holders = _prefix_holders(repo, mod, prefix)
+            local = _local_names(f) if holders else set()
             for n in walk_no_nested(f):
                 if isinstance(n, ast.Constant) and isinstance(n.value, str) and n.value == prefix:
                     owners.append((mod.rel, qn))
+                elif isinstance(n, ast.Name) and isinstance(n.ctx, ast.Load) and n.id in holders and n.id not in local:
+                    owners.append((mod.rel, qn))
+        owners = sorted(set(owners))
         R.check(owners == [(home_rel, home_fn)], r_same, home_rel, home_fn, f"prefix {prefix!r} produced only here", f"id prefix {prefix!r} is produced in {owners}: a second, private hashing of the same identity exists", 0)
 
     # ------------------------------------------------------------------ D5 commutative normalisation (C12 rules)
@@ -600,6 +651,32 @@ def run(repo: Repo, R: Report) -> None:
         c05.sweep_metadata(repo, R)
     finally:
         R.rule_prefix = ""
+
+
+def _prefix_holders(repo: Repo, mod, prefix: str) -> Set[str]:
+    """Names that denote the string *prefix* in *mod*: module-level constants bound to it, here or imported."""
+    out = {k for k, v in module_constants(mod).items() if isinstance(v, ast.Constant) and v.value == prefix}
+    for alias, nm, origin in _imported_names(repo, mod):
+        v = module_constants(origin).get(nm)
+        if isinstance(v, ast.Constant) and v.value == prefix:
+            out.add(alias)
+    return out
+
+
+def _qualified(mod, c: ast.Call) -> str:
+    """Dotted callee name with the module's import aliases resolved (``sha256`` -> ``hashlib.sha256``)."""
+    d = call_name(c) or ""
+    head, _, rest = d.partition(".")
+    target = getattr(mod, "imports", {}).get(head) if mod is not None and head else None
+    return (target + ("." + rest if rest else "")) if target else d
+
+
+def _is_hasher_update(f: ast.AST, c: ast.Call, mod=None) -> bool:
+    """``<h>.update(...)`` where <h> is a local bound to ``hashlib.<algo>(...)`` (found by what it is, not how it is called)."""
+    if not (isinstance(c.func, ast.Attribute) and c.func.attr == "update" and isinstance(c.func.value, ast.Name)):
+        return False
+    vals = assigned_value(f, c.func.value.id)
+    return bool(vals) and all(isinstance(v, ast.Call) and _qualified(mod, v).startswith("hashlib.") for v in vals)
 
 
 ELEMENTWISE = {"list", "tuple", "set", "frozenset", "iter"}
@@ -655,65 +732,575 @@ def _param_sorted_before_use(repo: Repo, rel: str, qualname: str) -> bool:
     return True
 
 
-def _config_id_pairs(repo: Repo, rel: str, qualname: str) -> Tuple[bool, str]:
-    """The list handed to compute_pipeline_config_id receives exactly (canonical node uuid, node semantic id) pairs.
+# ---------------------------------------------------------------------------
+# value origins: where can the value of an expression come from?
+# ---------------------------------------------------------------------------
+ANY = "*"  # accessor: an element / a value under a key that is not a constant
+SEQ_COPIES = {"list", "tuple", "iter"}  # keep the elements and their positions
+SEQ_REORDER = {"sorted", "reversed", "set", "frozenset"}  # keep the elements, not their positions
+MAP_COPIES = {"dict", "OrderedDict"}
+Leaf = Tuple[ast.AST, Tuple[str, ...]]
+GROWING_METHODS = {"append", "add", "appendleft", "insert", "extend", "extendleft", "update", "setdefault", "__setitem__", "__iadd__"}
 
-    Found by role: <P> is whatever is passed to compute_pipeline_config_id; its elements are the tuples appended to
-    <P> (or the element of the comprehension that builds it); the first component is sliced back to a read of the
-    canonical node field 'node_uuid', the second one to compute_node_semantic_id(...) / a constant marker."""
-    fn = nfunc(repo, rel, qualname)
+
+def _acc(key: ast.AST) -> str:
+    if isinstance(key, ast.Constant) and isinstance(key.value, str):
+        return "f:" + key.value
+    if isinstance(key, ast.Constant) and isinstance(key.value, int) and not isinstance(key.value, bool) and key.value >= 0:
+        return f"i:{key.value}"
+    return ANY
+
+
+def _acc_may_equal(a: str, b: str) -> bool:
+    return a == b or ANY in (a, b)
+
+
+class Flow:
+    """Demand-driven value-origin query on one function (normally a normal form).
+
+    ``origins(e, path)`` answers: which expressions can the value ``e<path>`` be (an equal copy of)?  *path* is a
+    sequence of accessors ('f:key' mapping field, 'i:n' position, '*' any element).  The answer is a set of leaves
+    ``(root expression, remaining path)``: the value is what *root* evaluates to, read along the remaining path.
+    Locals are followed through their reaching definitions (CFG, so a name reused for something else elsewhere does
+    not pollute the answer), tuple unpacking, loop / comprehension targets (enumerate, zip, items), conditional
+    expressions, copies (dict(x), list(x), x.copy(), {**x}, sorted(x)), literals and comprehensions, `.get(k, d)`,
+    and through what is put into a container after its creation (append / extend / insert / add / update /
+    setdefault / subscript stores / +=), also through a plain alias of the container.  A store ``x['k'] = v`` that
+    every path to the use passes after the last definition of ``x`` replaces what ``x['k']`` held before.
+
+    With ``identity=True`` the question is "which object is it" rather than "which value": a shallow copy is a new
+    object whose children are the children of the original (that is how the query treats copies anyway), a deep copy
+    is new at every depth.  ``feeds(e)`` is the transitive data dependence of *e* (parameters and calls)."""
+
+    def __init__(self, fn: ast.AST, budget: int = 20000, identity: bool = False):
+        from ..cfg import CFG
+
+        self.fn = fn
+        self.budget0 = budget
+        self.identity = identity  # track object identity: a deep copy is a new object at every depth
+        self.g = CFG(fn)
+        self.budget = budget
+        a = fn.args
+        self.params = {x.arg for x in a.posonlyargs + a.args + a.kwonlyargs} | {x.arg for x in (a.vararg, a.kwarg) if x is not None}
+        self._defs_of: Dict[str, List[object]] = {}
+        self._rd: Dict[Tuple[str, int], Tuple[Tuple[int, ...], bool]] = {}
+        self._mut: Optional[List[Tuple[str, str, ast.AST, ast.AST]]] = None
+
+    # -- definitions ------------------------------------------------------------------------------------
+    def _all_defs(self, name: str) -> List[object]:
+        if name not in self._defs_of:
+            out = []
+            for n in self.g.nodes:
+                a = n.ast
+                if a is None:
+                    continue
+                tg: List[ast.AST] = []
+                if n.kind == "stmt" and isinstance(a, ast.Assign):
+                    tg = list(a.targets)
+                elif n.kind == "stmt" and isinstance(a, (ast.AnnAssign, ast.AugAssign)):
+                    tg = [a.target] if not (isinstance(a, ast.AnnAssign) and a.value is None) else []
+                elif n.kind == "for" and isinstance(a, (ast.For, ast.AsyncFor)):
+                    tg = [a.target]
+                elif n.kind == "with" and isinstance(a, (ast.With, ast.AsyncWith)):
+                    tg = [it.optional_vars for it in a.items if it.optional_vars is not None]
+                elif n.kind == "except" and isinstance(a, ast.ExceptHandler):
+                    if a.name == name:
+                        out.append(n)
+                    continue
+                elif n.kind == "stmt" and isinstance(a, (ast.Import, ast.ImportFrom)):
+                    if any((al.asname or al.name).split(".")[0] == name for al in a.names):
+                        out.append(n)
+                    continue
+                elif n.kind == "stmt" and isinstance(a, FuncNode + (ast.ClassDef,)):
+                    if a.name == name:
+                        out.append(n)
+                    continue
+                if any(isinstance(x, ast.Name) and x.id == name and isinstance(x.ctx, ast.Store) for t in tg for x in ast.walk(t)):
+                    out.append(n)
+            self._defs_of[name] = out
+        return self._defs_of[name]
+
+    def reaching(self, name: str, use: int) -> Tuple[Tuple[int, ...], bool]:
+        """(ids of the definitions of *name* that reach CFG node *use*, does the value at function entry reach it)."""
+        key = (name, use)
+        if key not in self._rd:
+            defs = self._all_defs(name)
+            ids = {d.id for d in defs}
+            out = []
+            for d in defs:
+                seen = self.g.reach([t for t, _l in self.g.succ[d.id]], blocked=ids - {d.id, use})
+                if use in seen:
+                    out.append(d.id)
+            entry = use == self.g.entry or use in self.g.reach([self.g.entry], blocked=ids - {use})
+            self._rd[key] = (tuple(out), entry)
+        return self._rd[key]
+
+    def uses_of(self, e: ast.AST) -> List[int]:
+        st = stmt_of(e)
+        ids = self.g.nodes_for(st)
+        cur = st
+        while not ids and cur is not None and cur is not self.fn:  # inside a nested def / a clause header: the enclosing statement
+            cur = getattr(cur, "_parent", None)
+            ids = self.g.nodes_for(cur) if isinstance(cur, ast.stmt) else []
+        if not ids:
+            raise AnalysisError(f"value-origin analysis: no CFG node for `{norm(st)[:60]}`")
+        return ids
+
+    # -- query ------------------------------------------------------------------------------------------
+    def origins(self, e: ast.AST, path: Tuple[str, ...] = ()) -> Set[Leaf]:
+        out: Set[Leaf] = set()
+        self.budget = self.budget0  # per query
+        for use in self.uses_of(e):
+            out |= self._q(e, tuple(path), use, frozenset())
+        return out
+
+    def _q(self, e: Optional[ast.AST], path: Tuple[str, ...], use: int, stack: frozenset) -> Set[Leaf]:
+        self.budget -= 1
+        if self.budget < 0:
+            raise AnalysisError("value-origin analysis: budget exhausted")
+        if e is None:
+            return set()
+        q = lambda x, p: self._q(x, p, use, stack)  # noqa: E731
+        leaf: Set[Leaf] = {(e, path)}
+        if isinstance(e, ast.Name):
+            return self._name(e, path, use, stack)
+        if isinstance(e, (ast.IfExp,)):
+            return q(e.body, path) | q(e.orelse, path)
+        if isinstance(e, ast.BoolOp):
+            return set().union(*[q(v, path) for v in e.values])
+        if isinstance(e, ast.NamedExpr):
+            return q(e.value, path)
+        if isinstance(e, ast.Starred):
+            return q(e.value, path)
+        if isinstance(e, ast.Subscript):
+            if isinstance(e.slice, ast.Slice):
+                return q(e.value, tuple(ANY if p.startswith("i:") else p for p in path[:1]) + path[1:])
+            return q(e.value, (_acc(e.slice),) + path)
+        if isinstance(e, ast.Dict):
+            if not path:
+                return leaf
+            res: Set[Leaf] = set()
+            for k, v in zip(e.keys, e.values):
+                if k is None:
+                    res |= q(v, path)
+                elif _acc(k) == path[0] and path[0] != ANY:
+                    res = q(v, path[1:])  # a later entry of the same key replaces what came before
+                elif _acc_may_equal(_acc(k), path[0]):
+                    res |= q(v, path[1:])
+            return res
+        if isinstance(e, (ast.List, ast.Tuple, ast.Set)):
+            if not path:
+                return leaf
+            if path[0].startswith("f:"):
+                return leaf
+            if path[0].startswith("i:") and not isinstance(e, ast.Set):
+                n = int(path[0][2:])
+                if n < len(e.elts) and not any(isinstance(x, ast.Starred) for x in e.elts[: n + 1]):
+                    return q(e.elts[n], path[1:])
+            res = set()
+            for x in e.elts:
+                res |= q(x.value, (ANY,) + path[1:]) if isinstance(x, ast.Starred) else q(x, path[1:])
+            return res
+        if isinstance(e, (ast.ListComp, ast.SetComp, ast.GeneratorExp)):
+            return q(e.elt, path[1:]) if path and not path[0].startswith("f:") else leaf
+        if isinstance(e, ast.DictComp):
+            return q(e.value, path[1:]) if path else leaf
+        if isinstance(e, ast.BinOp) and isinstance(e.op, (ast.Add, ast.BitOr)) and path:
+            p = (ANY,) + path[1:] if path[0].startswith("i:") else path
+            return q(e.left, p) | q(e.right, p)
+        if isinstance(e, ast.Call):
+            return self._call(e, path, use, stack)
+        return leaf
+
+    def _call(self, e: ast.Call, path: Tuple[str, ...], use: int, stack: frozenset) -> Set[Leaf]:
+        q = lambda x, p: self._q(x, p, use, stack)  # noqa: E731
+        leaf: Set[Leaf] = {(e, path)}
+        f = e.func
+        fname = f.id if isinstance(f, ast.Name) else None
+        meth = f.attr if isinstance(f, ast.Attribute) else None
+        dn = dotted_name(f) or ""
+        unpos = tuple(ANY if p.startswith("i:") else p for p in path[:1]) + path[1:]
+        if any(isinstance(a, ast.Starred) for a in e.args) or any(kw.arg is None for kw in e.keywords):
+            return leaf
+        if fname in SEQ_COPIES | SEQ_REORDER and not e.keywords or fname == "sorted":
+            if not e.args:
+                return leaf if not path else set()
+            return q(e.args[0], path if fname in SEQ_COPIES else unpos) if path else leaf
+        if fname in MAP_COPIES:
+            if not path:
+                return leaf
+            res = q(e.args[0], path) if e.args else set()
+            for kw in e.keywords:
+                if "f:" + str(kw.arg) == path[0]:
+                    res = q(kw.value, path[1:])
+                elif path[0] == ANY:
+                    res |= q(kw.value, path[1:])
+            return res
+        if meth == "copy" and not e.args and not e.keywords and dn != "copy.copy":
+            return q(f.value, path) if path else leaf
+        if dn in ("copy.deepcopy", "deepcopy") and self.identity:
+            return leaf
+        if dn in ("copy.copy", "copy.deepcopy", "deepcopy") and len(e.args) == 1:
+            return q(e.args[0], path) if path else leaf
+        if dn in ("cast", "typing.cast") and len(e.args) == 2:
+            return q(e.args[1], path)
+        if meth in ("get", "pop", "setdefault") and e.args and len(e.args) <= 2 and not e.keywords:
+            res = q(f.value, (_acc(e.args[0]),) + path)
+            if len(e.args) == 2:
+                res |= q(e.args[1], path)
+            return res
+        if fname == "enumerate" and e.args and len(path) >= 2 and not path[0].startswith("f:"):
+            return q(e.args[0], (ANY,) + path[2:]) if path[1] == "i:1" else leaf
+        if fname == "zip" and len(path) >= 2 and not path[0].startswith("f:") and path[1].startswith("i:") and int(path[1][2:]) < len(e.args):
+            return q(e.args[int(path[1][2:])], (ANY,) + path[2:])
+        if meth == "items" and not e.args and len(path) >= 2:
+            return q(f.value, (ANY,) + path[2:]) if path[1] == "i:1" else leaf
+        if meth == "values" and not e.args and path:
+            return q(f.value, (ANY,) + path[1:])
+        return leaf
+
+    @staticmethod
+    def _target_path(target: ast.AST, name: str) -> Optional[Tuple[str, ...]]:
+        if isinstance(target, ast.Name):
+            return () if target.id == name else None
+        if isinstance(target, ast.Starred):
+            sub = Flow._target_path(target.value, name)
+            return None if sub is None else (ANY,) + sub  # a list of some of the elements
+        if isinstance(target, (ast.Tuple, ast.List)):
+            starred = False
+            for i, t in enumerate(target.elts):
+                sub = Flow._target_path(t, name)
+                if sub is not None:
+                    if isinstance(t, ast.Starred):
+                        return sub  # the elements of the starred name are elements of the value
+                    return ((ANY,) if starred else (f"i:{i}",)) + sub
+                starred = starred or isinstance(t, ast.Starred)
+        return None
+
+    def _name(self, e: ast.Name, path: Tuple[str, ...], use: int, stack: frozenset) -> Set[Leaf]:
+        name = e.id
+        # bound by an enclosing comprehension / lambda of the same statement?
+        cur = e
+        while True:
+            par = getattr(cur, "_parent", None)
+            if par is None or isinstance(par, ast.stmt) or cur is self.fn:
+                break
+            if isinstance(par, (ast.ListComp, ast.SetComp, ast.GeneratorExp, ast.DictComp)):
+                for gen in reversed(par.generators):
+                    tp = self._target_path(gen.target, name)
+                    if tp is not None and cur is not gen.iter:
+                        return self._q(gen.iter, (ANY,) + tp + path, use, stack)
+                    if cur is gen:
+                        pass
+            if isinstance(par, ast.Lambda):
+                a = par.args
+                if name in {x.arg for x in a.posonlyargs + a.args + a.kwonlyargs}:
+                    return {(e, path)}
+            cur = par
+        key = (name, path, use)
+        if key in stack:
+            return set()
+        stack = stack | {key}
+        ids, entry = self.reaching(name, use)
+        out: Set[Leaf] = set()
+        objs = set(ids) | ({-1} if entry else set())
+        if entry and not (path and self._overwritten(name, path[0], use, -1)):
+            out.add((e, path))  # parameter / global / builtin: the name itself is the origin
+        for did in ids:
+            if path and self._overwritten(name, path[0], use, did):
+                continue
+            d = self.g.nodes[did]
+            a = d.ast
+            if isinstance(a, (ast.Assign, ast.AnnAssign)):
+                for t in (a.targets if isinstance(a, ast.Assign) else [a.target]):
+                    tp = self._target_path(t, name)
+                    if tp is not None:
+                        out |= self._q(a.value, tp + path, did, stack)
+            elif isinstance(a, ast.AugAssign):
+                out |= self._name(a.target, path, did, stack) if isinstance(a.target, ast.Name) else {(a, path)}
+                out |= self._q(a.value, path, did, stack) if path else {(a, path)}
+            elif isinstance(a, (ast.For, ast.AsyncFor)):
+                tp = self._target_path(a.target, name)
+                out |= self._q(a.iter, (ANY,) + (tp or ()) + path, did, stack)
+            else:
+                out.add((a, path))
+        if path:
+            out |= self._stored_into(name, objs, path, stack, 0)
+        return out
+
+    def _overwritten(self, name: str, acc: str, use: int, did: int) -> bool:
+        """Every path from the definition *did* of *name* (-1: function entry) to *use* that keeps that definition
+        alive completes some plain ``name[<the constant key>] = v``: what the field held when the object was created
+        cannot be what is read at *use* (the stores themselves are collected by _stored_into)."""
+        if not acc.startswith("f:"):
+            return False
+        key = ("ow", name, acc, use, did)
+        if key in self._rd:
+            return self._rd[key]  # type: ignore[return-value]
+        res = False
+        defs = {d.id for d in self._all_defs(name)}
+        starts = [self.g.entry] if did == -1 else [t for t, _l in self.g.succ[did]]
+        edges = set()
+        for nm, kind, site, st in self._mutations():
+            if nm != name or kind != "store" or not isinstance(st, (ast.Assign, ast.AnnAssign)):
+                continue
+            if not (isinstance(site.value, ast.Name) and _acc(site.slice) == acc and (site is getattr(st, "target", None) or any(site is t for t in getattr(st, "targets", [])))):
+                continue
+            edges |= {(s_id, "n") for s_id in self.g.nodes_for(st) if s_id != use}
+        if edges and use not in starts:
+            res = use not in self.g.reach(starts, blocked=defs - {use}, blocked_edges=edges)
+        self._rd[key] = res  # type: ignore[assignment]
+        return res
+
+    # -- transitive data dependence ----------------------------------------------------------------------------
+    def feeds(self, e: ast.AST) -> Tuple[Set[str], List[ast.Call]]:
+        """(names that are not defined in the function - parameters, globals -, calls) the value of *e* depends on,
+        through locals, loop targets and what is stored into the containers it reads."""
+        names: Set[str] = set()
+        calls: List[ast.Call] = []
+        seen: Set[Tuple[str, int]] = set()
+        seen_expr: Set[Tuple[int, int]] = set()
+
+        def expr(x: Optional[ast.AST], use: int) -> None:
+            if x is None or (id(x), use) in seen_expr:
+                return
+            seen_expr.add((id(x), use))
+            bound: Set[str] = set()
+            for n in ast.walk(x):
+                if isinstance(n, ast.comprehension):
+                    bound |= {t.id for t in ast.walk(n.target) if isinstance(t, ast.Name)}
+                elif isinstance(n, ast.Lambda):
+                    bound |= {a.arg for a in n.args.posonlyargs + n.args.args + n.args.kwonlyargs}
+            for n in ast.walk(x):
+                if isinstance(n, ast.Call):
+                    calls.append(n)
+                if isinstance(n, ast.Name) and isinstance(n.ctx, ast.Load) and n.id not in bound:
+                    name(n.id, use)
+
+        def name(nm: str, use: int) -> None:
+            if (nm, use) in seen:
+                return
+            seen.add((nm, use))
+            ids, entry = self.reaching(nm, use)
+            if entry:
+                names.add(nm)
+            for did in ids:
+                a = self.g.nodes[did].ast
+                if isinstance(a, (ast.Assign, ast.AnnAssign)):
+                    expr(a.value, did)
+                elif isinstance(a, ast.AugAssign):
+                    expr(a.value, did)
+                    name(nm, did)
+                elif isinstance(a, (ast.For, ast.AsyncFor)):
+                    expr(a.iter, did)
+                elif isinstance(a, (ast.With, ast.AsyncWith)):
+                    for it in a.items:
+                        expr(it.context_expr, did)
+            objs = set(ids) | ({-1} if entry else set())
+            for mn, kind, site, st in self._mutations():
+                if mn != nm:
+                    continue
+                for u in self._same_object(nm, objs, st):
+                    if kind == "alias":
+                        continue
+                    if kind == "store":
+                        expr(getattr(st, "value", None), u)
+                        cur = site
+                        while isinstance(cur, ast.Subscript):
+                            expr(cur.slice, u)
+                            cur = cur.value
+                    elif site.func.attr in GROWING_METHODS:
+                        for a in list(site.args) + [kw.value for kw in site.keywords]:
+                            expr(a, u)
+
+        for use in self.uses_of(e):
+            expr(e, use)
+        return names, calls
+
+    # -- what is put into a container after its creation ---------------------------------------------------
+    def _mutations(self) -> List[Tuple[str, str, ast.AST, ast.AST]]:
+        """(container name, kind, site, statement): method calls on a local and subscript stores rooted at a local."""
+        if self._mut is None:
+            out: List[Tuple[str, str, ast.AST, ast.AST]] = []
+            for n in walk_no_nested(self.fn):
+                if isinstance(n, ast.Call) and isinstance(n.func, ast.Attribute) and isinstance(n.func.value, ast.Name):
+                    out.append((n.func.value.id, "call", n, stmt_of(n)))
+                tg = list(n.targets) if isinstance(n, ast.Assign) else [n.target] if isinstance(n, (ast.AnnAssign, ast.AugAssign)) and getattr(n, "value", None) is not None else []
+                for t in tg:
+                    for el in (t.elts if isinstance(t, (ast.Tuple, ast.List)) else [t]):
+                        root = el
+                        while isinstance(root, ast.Subscript):
+                            root = root.value
+                        if isinstance(el, ast.Subscript) and isinstance(root, ast.Name):
+                            out.append((root.id, "store", el, n))
+                if isinstance(n, ast.Assign) and isinstance(n.value, ast.Name) and len(n.targets) == 1 and isinstance(n.targets[0], ast.Name):
+                    out.append((n.value.id, "alias", n.targets[0], n))
+            self._mut = out
+        return self._mut
+
+    def _same_object(self, name: str, objs: Set[int], st: ast.AST) -> List[int]:
+        """CFG nodes of statement *st* at which *name* can denote an object created by one of the definitions *objs*."""
+        out = []
+        for u in self.g.nodes_for(st):
+            ids, entry = self.reaching(name, u)
+            if set(ids) & objs or (entry and -1 in objs):
+                out.append(u)
+        return out
+
+    def _stored_into(self, name: str, objs: Set[int], path: Tuple[str, ...], stack: frozenset, depth: int) -> Set[Leaf]:
+        out: Set[Leaf] = set()
+        for nm, kind, site, st in self._mutations():
+            if nm != name:
+                continue
+            uses = self._same_object(name, objs, st)
+            if not uses:
+                continue
+            for u in uses:
+                q = lambda x, p: self._q(x, p, u, stack)  # noqa: E731
+                if kind == "alias":
+                    if depth < 3:
+                        alias_defs = {d.id for d in self._all_defs(site.id) if d.ast is st}
+                        out |= self._stored_into(site.id, alias_defs, path, stack, depth + 1)
+                elif kind == "store":
+                    accs: List[str] = []
+                    cur = site
+                    while isinstance(cur, ast.Subscript):
+                        accs.append(ANY if isinstance(cur.slice, ast.Slice) else _acc(cur.slice))
+                        cur = cur.value
+                    accs.reverse()
+                    if len(accs) <= len(path) and all(_acc_may_equal(a, b) for a, b in zip(accs, path)):
+                        if isinstance(st, ast.AugAssign):
+                            out.add((st, path[len(accs):]))
+                        elif isinstance(st, ast.Assign) and any(site is t for t in st.targets) or isinstance(st, ast.AnnAssign):
+                            out |= q(st.value, path[len(accs):])
+                        else:  # element of a tuple target
+                            out.add((st, path[len(accs):]))
+                else:
+                    m = site.func.attr
+                    args = site.args
+                    elemwise = not path[0].startswith("f:")
+                    if m in ("append", "add", "appendleft") and len(args) == 1 and elemwise:
+                        out |= q(args[0], path[1:])
+                    elif m == "insert" and len(args) == 2 and elemwise:
+                        out |= q(args[1], path[1:])
+                    elif m in ("extend", "extendleft", "__iadd__") and len(args) == 1 and elemwise:
+                        out |= q(args[0], (ANY,) + path[1:])
+                    elif m == "update":
+                        for a in args:
+                            out |= q(a, (ANY,) + path[1:] if elemwise and path[0] != ANY else path)
+                        for kw in site.keywords:
+                            if kw.arg is None:
+                                out |= q(kw.value, path)
+                            elif _acc_may_equal("f:" + kw.arg, path[0]):
+                                out |= q(kw.value, path[1:])
+                    elif m == "setdefault" and len(args) == 2 and _acc_may_equal(_acc(args[0]), path[0]):
+                        out |= q(args[1], path[1:])
+                    elif m == "__setitem__" and len(args) == 2 and _acc_may_equal(_acc(args[0]), path[0]):
+                        out |= q(args[1], path[1:])
+        return out
+
+
+def flow_of(repo: Repo, rel: str, qualname: str, identity: bool = False, **nf_opts) -> Flow:
+    """The (cached) value-origin analysis of the normal form of a function."""
+    cache = repo.__dict__.setdefault("_c04_flow_cache", {})
+    key = (rel, qualname, identity, tuple(sorted(nf_opts.items())))
+    if key not in cache:
+        cache[key] = Flow(nfunc(repo, rel, qualname, **nf_opts), identity=identity)
+    return cache[key]
+
+
+def _show_leaf(leaf: Leaf) -> str:
+    root, path = leaf
+    txt = norm(root)[:50]
+    for p in path:
+        txt += "[*]" if p == ANY else f"[{p[2:]!r}]" if p.startswith("f:") else f"[{p[2:]}]"
+    return txt
+
+
+def _canonical_node_uuid(flow: Flow, leaf: Leaf) -> bool:
+    """The leaf is <canonical spec>['nodes'][i]['node_uuid'] with <canonical spec> the first result of
+    build_canonical_spec(...) or the canonical spec handed in by the caller (parameter ``canonical_spec``)."""
+    root, path = leaf
+    if len(path) < 3 or path[-1] != "f:node_uuid" or path[-2].startswith("f:") or path[-3] != "f:nodes":
+        return False
+    head = path[:-3]
+    if isinstance(root, ast.Call) and call_attr(root) == "build_canonical_spec":
+        return head == ("i:0",)
+    return isinstance(root, ast.Name) and root.id == "canonical_spec" and root.id in flow.params and head == ()
+
+
+def _config_id_pairs(repo: Repo, rel: str, qualname: str) -> Tuple[bool, str]:
+    """The sequence handed to compute_pipeline_config_id holds exactly (canonical node uuid, node semantic id) pairs.
+
+    Decided on the normal form by value origin (no local names, no statement shapes): every element that can be in
+    the argument is a 2-tuple; every value its first component can take is the 'node_uuid' field of a node of the
+    canonical spec (result of build_canonical_spec / the caller's canonical_spec) or the falsy "no uuid" default;
+    every value its second component can take is compute_node_semantic_id(...) or a constant marker string."""
+    flow = flow_of(repo, rel, qualname)
+    fn = flow.fn
     calls = [c for c in calls_in(fn) if call_attr(c) == "compute_pipeline_config_id"]
-    if len(calls) != 1 or not calls[0].args:
+    if len(calls) != 1:
         return False, "no single compute_pipeline_config_id(<pairs>) call"
-    arg = calls[0].args[0]
-    elems: List[ast.AST] = []
-    srcs = [arg]
-    if isinstance(arg, ast.Name):
-        srcs = list(assigned_value(fn, arg.id))
-        for c in calls_in(fn):
-            if call_attr(c) == "append" and isinstance(c.func, ast.Attribute) and isinstance(c.func.value, ast.Name) and c.func.value.id == arg.id and c.args:
-                elems.append(c.args[0])
-            elif call_attr(c) in ("extend", "insert", "__iadd__") and isinstance(c.func, ast.Attribute) and isinstance(c.func.value, ast.Name) and c.func.value.id == arg.id:
-                return False, f"`{norm(c)[:60]}` adds elements of unknown shape"
-    for v in srcs:
-        if isinstance(v, (ast.ListComp, ast.GeneratorExp)):
-            elems.append(v.elt)
-        elif isinstance(v, ast.List):
-            elems.extend(v.elts)
-        elif isinstance(v, ast.Call) and call_attr(v) == "list" and not v.args:
-            pass
-        else:
-            return False, f"pairs built by `{norm(v)[:60]}`"
+    arg = calls[0].args[0] if calls[0].args else kwarg(calls[0], "pairs")
+    if arg is None:
+        return False, "compute_pipeline_config_id called without the pairs"
+    elems = flow.origins(arg, (ANY,))
     if not elems:
-        return False, "nothing is appended to the pairs"
-    for e in elems:
-        if not (isinstance(e, ast.Tuple) and len(e.elts) == 2):
-            return False, f"element `{norm(e)[:60]}` is not a 2-tuple"
-        a, b = e.elts
-        if "'node_uuid'" not in slice_text(fn, a, 3):
-            return False, f"first component `{norm(a)[:50]}` is not read from the canonical node's 'node_uuid'"
-        vals = assigned_value(fn, b.id) if isinstance(b, ast.Name) else [b]
-        flat: List[ast.AST] = []
-        for v in vals:
-            flat.extend([v.body, v.orelse] if isinstance(v, ast.IfExp) else [v])
-        has_id = any(isinstance(v, ast.Call) and call_attr(v) == "compute_node_semantic_id" for v in flat)
-        rest_ok = all((isinstance(v, ast.Call) and call_attr(v) == "compute_node_semantic_id") or (isinstance(v, ast.Constant) and isinstance(v.value, str)) for v in flat)
-        if not (has_id and rest_ok):
-            return False, f"second component `{norm(b)[:50]}` is not compute_node_semantic_id(...) or a constant marker"
+        return False, "nothing is put into the pairs"
+    for root, path in sorted(elems, key=lambda l: getattr(l[0], "lineno", 0)):
+        if path or not (isinstance(root, ast.Tuple) and len(root.elts) == 2 and not any(isinstance(x, ast.Starred) for x in root.elts)):
+            return False, f"element `{_show_leaf((root, path))}` is not a (node uuid, node semantic id) 2-tuple"
+        a, b = root.elts
+        firsts = flow.origins(a)
+        for leaf in sorted(firsts, key=_show_leaf):
+            r0, p0 = leaf
+            if isinstance(r0, ast.Constant) and not p0 and not r0.value:
+                continue  # the "node has no uuid" default
+            if not _canonical_node_uuid(flow, leaf):
+                return False, f"first component `{norm(a)[:50]}` is not read from the canonical node's 'node_uuid' (it can be `{_show_leaf(leaf)}`)"
+        if not any(_canonical_node_uuid(flow, leaf) for leaf in firsts):
+            return False, f"first component `{norm(a)[:50]}` is never the canonical node's 'node_uuid'"
+        seconds = flow.origins(b)
+        is_id = lambda l: isinstance(l[0], ast.Call) and not l[1] and call_attr(l[0]) == "compute_node_semantic_id"  # noqa: E731
+        is_marker = lambda l: isinstance(l[0], ast.Constant) and not l[1] and isinstance(l[0].value, str)  # noqa: E731
+        wrong = [l for l in seconds if not (is_id(l) or is_marker(l))]
+        if wrong or not any(is_id(l) for l in seconds):
+            return False, f"second component `{norm(b)[:50]}` is not compute_node_semantic_id(...) or a constant marker" + (f" (it can be `{_show_leaf(sorted(wrong, key=_show_leaf)[0])}`)" if wrong else "")
     return True, ""
+
+
+def _loops_in_place(repo: Repo, rel: str, sub: ast.AST) -> None:
+    """Replace the body of the nested def *sub* (inside a detached normal form) by its own loops=True normal form."""
+    nf = normalize(repo, repo.module(rel), sub, inline=False, loops=True)
+    sub.body = nf.body
+    from ..engine import _attach_parents
+
+    par = getattr(sub, "_parent", None)
+    _attach_parents(sub)
+    sub._parent = par  # type: ignore[attr-defined]
 
 
 def order_normaliser_gap(fn: ast.AST) -> Optional[str]:
     """None when *fn* is a key-order normaliser: called on v it returns, for a mapping, a dict rebuilt over
     ``sorted(...)`` of its keys with the values normalised recursively, and for a list, the list of the recursively
     normalised items - so no mapping at any depth (also below lists) keeps insertion order.  Otherwise the reason."""
-    if not isinstance(fn, FuncNode) or not fn.args.args:
+    pos = [a.arg for a in fn.args.args] if isinstance(fn, FuncNode) else []
+    if pos and pos[0] in ("self", "cls") and isinstance(getattr(fn, "_parent", None), ast.ClassDef):
+        pos = pos[1:]  # a method: the value is the first parameter after the receiver
+    if not pos:
         return "not a function of one value"
-    v = fn.args.args[0].arg
+    v = pos[0]
     name = fn.name
 
+    def is_self_call(c: ast.AST) -> bool:
+        if not isinstance(c, ast.Call):
+            return False
+        if isinstance(c.func, ast.Name):
+            return c.func.id == name
+        return isinstance(c.func, ast.Attribute) and c.func.attr == name and isinstance(c.func.value, ast.Name) and c.func.value.id in ("self", "cls")
+
     def recursive(e: ast.AST) -> bool:
-        return any(isinstance(c, ast.Call) and isinstance(c.func, ast.Name) and c.func.id == name for c in ast.walk(e))
+        return any(is_self_call(c) for c in ast.walk(e))
 
     def over_param_sorted(it: ast.AST) -> bool:
         return isinstance(it, ast.Call) and isinstance(it.func, ast.Name) and it.func.id == "sorted" and bool(it.args) and v in {x.id for x in ast.walk(it.args[0]) if isinstance(x, ast.Name)}
@@ -731,6 +1318,9 @@ def order_normaliser_gap(fn: ast.AST) -> Optional[str]:
             it = n.generators[0].iter
             if isinstance(it, ast.Name) and it.id == v and recursive(n.elt) and not n.generators[0].ifs:
                 list_ok = True
+        elif isinstance(n, ast.Call) and isinstance(n.func, ast.Name) and n.func.id == "map" and len(n.args) == 2:
+            if is_self_call(ast.Call(func=n.args[0], args=[], keywords=[])) and isinstance(n.args[1], ast.Name) and n.args[1].id == v:
+                list_ok = True  # map(<itself>, v): every item normalised, in order
     if not dict_ok:
         return f"{name}: mappings are not rebuilt over sorted keys with normalised values"
     if not list_ok:
@@ -755,28 +1345,33 @@ def _normalised_before_dump(repo: Repo, rel: str, f: ast.AST, jd: ast.Call) -> T
             return False, f"json.dumps without sort_keys on `{a0.id}`, which is not the result of a key-order normaliser"
     mod = repo.module(rel)
     for val in vals:
-        if not (isinstance(val, ast.Call) and isinstance(val.func, ast.Name)):
+        if not isinstance(val, ast.Call):
             return False, f"json.dumps without sort_keys on an unnormalised value `{norm(val)[:50]}`"
-        target = next((n for n in ast.walk(f) if isinstance(n, FuncNode) and n is not f and n.name == val.func.id), None) or mod.defs.get(val.func.id)
+        target = None
+        if isinstance(val.func, ast.Name):
+            target = next((n for n in ast.walk(f) if isinstance(n, FuncNode) and n is not f and n.name == val.func.id), None) or mod.defs.get(val.func.id)
+        else:  # a method of the same class / a function reached through the module
+            res = [tf for tm, tf in repo.resolve_call(mod, val) if tm.rel == rel]
+            target = res[0] if len(res) == 1 else None
         if not isinstance(target, FuncNode):
-            return False, f"json.dumps without sort_keys on the result of `{val.func.id}`, which is not a function of this module"
-        gap = order_normaliser_gap(target)
+            return False, f"json.dumps without sort_keys on the result of `{norm(val.func)[:40]}`, which is not a function of this module"
+        gap = order_normaliser_gap(normalize(repo, mod, target, inline=False, loops=True))
         if gap is not None:
             return False, f"json.dumps without sort_keys, and {gap}"
     return True, ""
 
 
-def _dumps_feeding(f: ast.AST, arg: Optional[ast.AST], depth: int = 0) -> List[ast.Call]:
+def _dumps_feeding(f: ast.AST, arg: Optional[ast.AST], depth: int = 0, mod=None) -> List[ast.Call]:
     """json.dumps calls whose result flows into *arg* (through locals, .encode(), f-strings, +)."""
     if arg is None or depth > 3:
         return []
     out = []
     for c in ast.walk(arg):
-        if isinstance(c, ast.Call) and call_name(c) == "json.dumps":
+        if isinstance(c, ast.Call) and _qualified(mod, c) == "json.dumps":
             out.append(c)
     for nm in {x.id for x in ast.walk(arg) if isinstance(x, ast.Name)}:
         for v in assigned_value(f, nm):
-            out.extend(_dumps_feeding(f, v, depth + 1))
+            out.extend(_dumps_feeding(f, v, depth + 1, mod))
     return out
 
 
